@@ -60,6 +60,22 @@ def bounded(pack, tier):
         pack.violation(name, {'bounded': True, 'inputs': w, 'native_cmd': 'contracts/bounded_connectivity.py: System.connectivity(stub)'})
     from contracts.C19 import bounded as find_idx_bounded
     from contracts import bounded_find_idx as BF
+    # the lookup behind "devices attached to an off bus": registries whose bus column mixes numbers and generated names
+    rm = native_guard(pack, 'C12/andes/core/model/modeldata.py:ModelData.find_idx/bounded:mixed-int-and-str-values-are-matched-as-python-objects', BF.run_mixed)
+    if rm is not None:
+        nmx, badmx = rm
+        pack.bounded.append({'function': 'ModelData.find_idx / GroupBase.find_idx (mixed int / str registries)', 'cases': nmx, 'counted_as_proved': False,
+                             'kind': 'bounded native'})
+        if badmx:
+            pack.violation('C12/andes/core/model/modeldata.py:ModelData.find_idx/bounded:mixed-int-and-str-values-are-matched-as-python-objects',
+                           {'bounded': True, 'inputs': badmx, 'native_cmd': 'contracts/bounded_find_idx.py run_mixed'})
+    rb = native_guard(pack, 'C12/andes/core/connman.py:ConnMan.act/bounded:a-bus-switched-off-takes-exactly-its-devices-with-it', G.replay_bus_off)
+    if rb is not None:
+        pack.bounded.append({'function': 'Bus.set / Bus.alter; PFlow.run; reset (end to end)', 'cases': rb.get('tried', 0), 'counted_as_proved': False,
+                             'kind': 'bounded native: pjm5bus (every bus, zero-based indices), ieee14 extended by an automatically named bus'})
+        if rb.get('confirmed'):
+            pack.violation('C12/andes/core/connman.py:ConnMan.act/bounded:a-bus-switched-off-takes-exactly-its-devices-with-it',
+                           {'bounded': True, 'inputs': rb.get('inputs'), 'observed': rb.get('observed'), 'native_cmd': rb.get('native_cmd')})
     r = native_guard(pack, 'C12/andes/models/group.py:GroupBase.find_idx/bounded:runs', lambda: BF.run(2))
     if r is not None:
         n2, mism = r
